@@ -1,0 +1,72 @@
+//go:build verif
+
+package pow
+
+// Machine-checked contracts for this package (read by /verif/govc; comment-only, compiled only
+// with -tags verif). See /verif/DESIGN.md.
+//
+// The PoW input block is 192 trits b1t6(BLAKE2b-256 digest), 48 trits b1t6(little-endian nonce) and 3 zero
+// trits; bt(v, j) is the j-th balanced trit of v. Floating-point arithmetic is uninterpreted: the score
+// is stated as the same expression over the same operands (3^zeros / length).
+
+//@ props C11
+
+//@ spec istrit(t int8) bool = -1 <= t && t <= 1
+//@ spec bt(v int, j int) int8 = int8(((v + 364) / pow(3, j)) % 3 - 1)
+//@ spec powin(d []byte, nonce uint64, k int) int8 = ite(k < 192, bt(b1t6.sbyte(d[k/6]), k%6), ite(k < 240, bt(b1t6.sbyte(byte(nonce >> (8*((k-192)/6)))), k%6), int8(0)))
+//@ spec powhash(d []byte, nonce uint64) []int8 = hashcat("curlp81", mkarray(243, k, powin(d, nonce, k)))
+
+//@ lemma bt_unique(t0 int8, t1 int8, t2 int8, t3 int8, t4 int8, t5 int8, v int)
+//@   props C11
+//@   requires istrit(t0) && istrit(t1) && istrit(t2) && istrit(t3) && istrit(t4) && istrit(t5)
+//@   requires int(t0) + 3*int(t1) + 9*int(t2) + 27*int(t3) + 81*int(t4) + 243*int(t5) == v
+//@   ensures  t0 == bt(v, 0) && t1 == bt(v, 1) && t2 == bt(v, 2) && t3 == bt(v, 3) && t4 == bt(v, 4) && t5 == bt(v, 5)
+
+//@ func encodeNonce(dst trinary.Trits, nonce uint64)
+//@   requires len(dst) >= 48
+//@   panics  never
+//@   modifies dst[0:48]
+//@   ensures forall(k, 0, 8, b1t6.trits6(dst, 6*k) && b1t6.val6(dst, 6*k) == b1t6.sbyte(byte(nonce >> (8*k))))
+
+// trailingZeros: the number of trailing zero trits of the Curl-P-81 hash of the PoW input block
+//@ func trailingZeros(powDigest []byte, nonce uint64) (r int)
+//@   requires len(powDigest) == 32
+//@   panics  never
+//@   use forall(k, 0, 32, bt_unique(buf[6*k], buf[6*k+1], buf[6*k+2], buf[6*k+3], buf[6*k+4], buf[6*k+5], b1t6.sbyte(powDigest[k])))
+//@   use forall(k, 0, 8, bt_unique(buf[192+6*k], buf[193+6*k], buf[194+6*k], buf[195+6*k], buf[196+6*k], buf[197+6*k], b1t6.sbyte(byte(nonce >> (8*k)))))
+//@   check   forallx(k, 0, 243, buf[k] == powin(powDigest, nonce, k))
+//@   ensures 0 <= r && r <= 243
+//@   ensures forall(j, 243 - r, 243, powhash(powDigest, nonce)[j] == 0) && (r == 243 || powhash(powDigest, nonce)[242 - r] != 0)
+
+// The lane test: bit i of orx(l, h, 243-n, 243) is 0 exactly when the last n trits of lane i are all
+// zero; the result is the first such lane, or 64.
+//@ rec orx(l [243]uint, h [243]uint, lo int, hi int) uint = ite(lo >= hi, uint(0), orx(l, h, lo, hi-1) | (l[hi-1] ^ h[hi-1]))
+//@ spec bitat(w uint, i int) uint = (w >> uint(i)) & 1
+//@ func checkStateTrits(l *[243]uint, h *[243]uint, n uint) (r int)
+//@   repr uint
+//@   intvar n i
+//@   requires l != nil && h != nil && n <= 243
+//@   panics  never
+//@   ensures 0 <= r && r <= 64
+//@   ensures implies(r < 64, bitat(orx(*l, *h, 243 - int(n), 243), r) == 0)
+//@   ensures forall(m, 0, 64, implies(m < r, bitat(orx(*l, *h, 243 - int(n), 243), m) == 1))
+//@   loop 1 invariant 243 - int(n) <= int(i) && int(i) <= 243 && v == orx(*l, *h, 243 - int(n), int(i))
+
+// Score: 3^z / len(msg) with z the number of trailing zero trits of the hash of the PoW input block built
+// from BLAKE2b-256(msg without its last 8 bytes) and the little-endian nonce in those 8 bytes.
+//@ spec hor8(b0 byte, b1 byte, b2 byte, b3 byte, b4 byte, b5 byte, b6 byte, b7 byte) mathint = ((((((mathint(b7)*256 + mathint(b6))*256 + mathint(b5))*256 + mathint(b4))*256 + mathint(b3))*256 + mathint(b2))*256 + mathint(b1))*256 + mathint(b0)
+//@ spec le64(b []byte) mathint = hor8(b[0], b[1], b[2], b[3], b[4], b[5], b[6], b[7])
+//@ spec msghash(msg []byte) []int8 = powhash(blake2b256(msg[0:len(msg)-8]), le64(msg[len(msg)-8:len(msg)]))
+//@ func Score(msg []byte) (r float64)
+//@   let z = ret(trailingZeros, 1, 0)
+//@   panics  when len(msg) < 8
+//@   ensures 0 <= z && z <= 243 && forall(j, 243 - z, 243, msghash(msg)[j] == 0) && (z == 243 || msghash(msg)[242 - z] != 0)
+//@   ensures r == math.Pow(consts.TrinaryRadix, float64(z)) / float64(len(msg))
+
+// requiredTrailingZeros: whatever the floating-point estimate was, the returned count z satisfies the
+// score formula itself, 3^z / msgLen >= target in the sense of the comparison the loop uses (or exceeds
+// 243, which the worker rejects), and it is never the conversion of a negative number.
+//@ func requiredTrailingZeros(msgLen int, targetScore float64) (r uint)
+//@   panics  never
+//@   loop 1 invariant true
+//@   ensures r > 243 || !(math.Pow(consts.TrinaryRadix, float64(r)) / float64(msgLen) < targetScore)
